@@ -51,6 +51,7 @@ class Models(object):
         self.decl("re_len", [STR, STR], INT)      # length of that match
         self.decl("re_s0", [STR, STR, INT], INT)  # group i start, relative to the window
         self.decl("re_s1", [STR, STR, INT], INT)
+        self.decl("shape3", [STR], BOOL)
 
     def bind(self, ex):
         self.ex = ex
@@ -196,6 +197,9 @@ class Models(object):
         }.get(kind, BUILTIN_EXC.get(kind, []) if kind in BUILTIN_EXC else ["object"] if kind != "object" else [])
 
     def class_cell(self, ex, st, cls, attr):
+        return None
+
+    def instance_attr(self, ex, st, obj, attr):
         return None
 
     def class_setattr(self, ex, st, cls, attr, v):
@@ -947,6 +951,18 @@ def km_re_match(ex, st, fr, self, args, kwargs):
     return res
 
 
+def shape3_facts(pat, w):
+    """RE5 (adjacency): when the pattern has the shape F0(F1)(F2)(F3)F4 -- three adjacent capture groups, no
+    alternation, no optional part (`shape3(pat)`, checked per structure literal) -- the spans of groups 1,2,3 are
+    adjacent and lie inside the match"""
+    s0 = lambda i: tm.app("re_s0", INT, pat, w, tm.I(i))
+    s1 = lambda i: tm.app("re_s1", INT, pat, w, tm.I(i))
+    ln = tm.app("re_len", INT, pat, w)
+    return tm.implies(tm.app("shape3", BOOL, pat), tm.and_(
+        tm.le(0, s0(1)), tm.le(s0(1), s1(1)), tm.eq(s1(1), s0(2)), tm.le(s0(2), s1(2)), tm.eq(s1(2), s0(3)),
+        tm.le(s0(3), s1(3)), tm.le(s1(3), ln)))
+
+
 def rematch_span_terms(st, m, i):
     pat, w, pos = st.get(m, "pat").t, st.get(m, "w").t, st.get(m, "pos").t
     return (tm.add(pos, tm.app("re_s0", INT, pat, w, i)), tm.add(pos, tm.app("re_s1", INT, pat, w, i)))
@@ -962,7 +978,7 @@ def km_rematch_span(ex, st, fr, self, args, kwargs):
     r0, r1 = tm.app("re_s0", INT, pat, w, i), tm.app("re_s1", INT, pat, w, i)
     # RE1: group spans lie inside the match; group 0 is the whole match
     st = st.assume(tm.le(0, r0), tm.le(r0, r1), tm.le(r1, ln),
-                   tm.implies(tm.eq(i, 0), tm.and_(tm.eq(r0, 0), tm.eq(r1, ln))))
+                   tm.implies(tm.eq(i, 0), tm.and_(tm.eq(r0, 0), tm.eq(r1, ln))), shape3_facts(pat, w))
     return [(st, "ok", VTuple([VT(tm.add(pos, r0)), VT(tm.add(pos, r1))]))]
 
 
